@@ -309,9 +309,45 @@ func c07R2(c *Ctx) {
 	start := P.Func("hopserver", "(*hopSession).start")
 	fUsing := P.Field("hopserver", "hopSession", "usingAuthGrant")
 	fActions := P.Field("hopserver", "hopSession", "authorizedActions")
-	if start == nil || fUsing == nil || fActions == nil {
+	// the grant gate: a bool field, or a method of the session computing it
+	mUsing := P.Func("hopserver", "(*hopSession).usingAuthGrant")
+	if start == nil || (fUsing == nil && mUsing == nil) || fActions == nil {
 		c.Undecided("C07.R2", "hopserver.(*hopSession).start", "function or field not found")
 		return
+	}
+	isGate := func(v ssa.Value) bool {
+		if fUsing != nil && endsInField(v, fUsing, false) {
+			return true
+		}
+		if mUsing != nil {
+			if call, _ := fromCall(v); call != nil && staticCallee(&call.Call) == mUsing {
+				return true
+			}
+			if src := loadSource(v); src != nil {
+				if call, _ := fromCall(src); call != nil && staticCallee(&call.Call) == mUsing {
+					return true
+				}
+			}
+		}
+		return false
+	}
+	var gateInputs []*types.Var
+	if fUsing != nil {
+		gateInputs = append(gateInputs, fUsing)
+	} else {
+		seenF := map[*types.Var]bool{}
+		eachInstr(mUsing, func(ins ssa.Instruction) {
+			if fa, ok := ins.(*ssa.FieldAddr); ok {
+				if f := fieldOf(fa.X.Type(), fa.Field); f != nil && !seenF[f] {
+					seenF[f] = true
+					gateInputs = append(gateInputs, f)
+				}
+			}
+		})
+		if len(gateInputs) == 0 {
+			c.Undecided("C07.R2", "hopserver.(*hopSession).usingAuthGrant", "the gate method reads no session field")
+			return
+		}
 	}
 	c.Analysed(FuncName(start))
 	checkCmdID := hopID("hopserver", "hopSession", "checkCmd")
@@ -377,7 +413,7 @@ func c07R2(c *Ctx) {
 			}
 			key, pol := normCond(t.Cond)
 			val := (from.Succs[0] == to) == pol
-			if key.op == token.ILLEGAL && endsInField(key.x, fUsing, false) && !val {
+			if key.op == token.ILLEGAL && isGate(key.x) && !val {
 				return true
 			}
 			if key.op == token.EQL && key.y == nil && val {
@@ -498,15 +534,28 @@ func c07R2(c *Ctx) {
 	}
 	c.Floor("C07.R2", "action arms dispatched by sess.start", nAction, 4)
 
-	// who writes the grant fields
-	allowed := map[string]bool{"hopserver.(*hopSession).checkAuthorization": true, "hopserver.(*hopSession).checkCmd": true}
-	for _, f := range []*types.Var{fUsing, fActions} {
+	// who writes the grant fields: the gate is fixed at admission, the action list by admission and consumption
+	isGateInput := map[*types.Var]bool{}
+	for _, f := range gateInputs {
+		isGateInput[f] = true
+	}
+	fields := append([]*types.Var{}, gateInputs...)
+	if !isGateInput[fActions] {
+		fields = append(fields, fActions)
+	}
+	for _, f := range fields {
 		ws := P.FieldWrites(f)
 		for _, w := range ws {
-			c.Check(allowed[FuncName(w.Fn)], "C07.R2", "write:hopSession."+f.Name()+"@"+FuncName(w.Fn), P.InstrPos(w.Instr), "written by the authorizer / the consumer",
-				"hopSession."+f.Name()+" is written outside checkAuthorization / checkCmd (grant state could be widened or reset)")
+			wn := FuncName(w.Fn)
+			if isGateInput[f] {
+				c.Check(wn == "hopserver.(*hopSession).checkAuthorization", "C07.R2", "write:gate:hopSession."+f.Name()+"@"+wn, P.InstrPos(w.Instr), "the grant gate is decided at admission only",
+					"hopSession."+f.Name()+" decides whether a session is confined to its grants, and it is written outside checkAuthorization: a session admitted through a grant can stop being treated as one (for instance once its last grant is consumed) and then act without any grant")
+			} else {
+				c.Check(wn == "hopserver.(*hopSession).checkAuthorization" || wn == "hopserver.(*hopSession).checkCmd", "C07.R2", "write:hopSession."+f.Name()+"@"+wn, P.InstrPos(w.Instr), "written by the authorizer / the consumer",
+					"hopSession."+f.Name()+" is written outside checkAuthorization / checkCmd (grant state could be widened or reset)")
+			}
 		}
-		c.Floor("C07.R2", "writers of hopSession."+f.Name(), len(ws), 2)
+		c.Floor("C07.R2", "writers of hopSession."+f.Name(), len(ws), 1)
 	}
 }
 
